@@ -12,9 +12,9 @@ COMMON_NOTE = ("Trusted: Lean 4.33 kernel (axioms propext, Classical.choice, Quo
                "correspondence or a table obligation; that is then reported with no-failing-input-found.")
 
 CLS_NOTE = (COMMON_NOTE + " Inside the Lean model (exact correspondence on valid AND malformed inputs): TLS record, alert, CCS, "
-            "application data, ClientHello/ServerHello/HelloRetryRequest/Certificate/ServerKeyExchange/CertificateStatus/"
-            "ServerHelloDone and the handshake variant, 24 of the hello-extension classes and their vectors; other protocol "
-            "families as their model files are added (listed in the evidence). Classes outside the model are covered by the "
+            "application data, ClientHello/ServerHello/HelloRetryRequest/Certificate/CertificateRequest/ServerKeyExchange/CertificateStatus/"
+            "ServerHelloDone and the handshake variant, every hello-extension class and their vectors, the SSL 2.0 record and "
+            "messages, SSH (banner, packets, KEXINIT, DH/GEX, keys, v01 certificates), DNS records, MySQL/RDP/OpenVPN/PostgreSQL. Classes outside the model are covered by the "
             "implementation-side oracle only (property evaluated on the real code), which is search, not proof. Values that go "
             "through idna/asn1crypto/dateutil/urllib3 are outside the model.")
 
@@ -102,13 +102,17 @@ CHECKS = {
         design='Appendix B (OPP)', note=CLS_NOTE),
     'C14': dict(
         technique='Lean 4 proof over a model of the serialisation walk (PyVal -> JSON / Markdown): well-formedness, determinism and faithfulness by structural induction + correspondence on values harvested from the real objects + json.loads / determinism oracles on the real code',
-        text=("20 theorems (CpProps/C14.lean): the JSON rendering of every model value is accepted by the model JSON grammar, "
-              "equal values render identically, byte strings / enumerations / dates / nested vectors / unknown code points all "
-              "have a rendering (totality), Markdown rendering is total and deterministic. Statements false of the code are "
-              "kept visible with witnesses: set iteration order, encoder pinned on the class by the first call, Markdown "
-              "returning non-text and raising inside __str__ (known findings; the repository tests pin them). Every object of "
-              "the harvested corpus and of the generators is serialised twice in different orders and processes, parsed with "
-              "json.loads, and compared with the model output."),
+        text=("23 theorems (CpProps/C14.lean): JSON and Markdown rendering are total on the model values (given keys that "
+              "Python can order); the JSON text is accepted by the model JSON grammar and parses back to the value "
+              "(render_wellformed, escape_roundtrip, render_faithful); values equal up to the insertion order of their sets "
+              "render identically in JSON and Markdown (…_deterministic_up_to_sets, under the stated distinct-keys "
+              "hypothesis, shown necessary by a witness); Markdown leaves the installed text encoder as it found it and its "
+              "output does not depend on what was serialised before (as_markdown_encoder_restored, "
+              "as_markdown_independent_of_history, encoder_installed_later_is_honoured); a non-dict _asdict() value is rendered "
+              "as text. The three defects the earlier full statements exposed (set iteration order, encoder pinned on the "
+              "class, non-text Markdown) were repaired in /repo and are now regression examples. Every object of the harvested "
+              "corpus, of the generators and of a set of X.509-carrying report objects is serialised twice, in shuffled orders "
+              "in three processes with different hash seeds, parsed with json.loads, and compared with the model output."),
         design='Appendix B (C14)', note=COMMON_NOTE + " Python's json module and str() of leaf values are trusted; PYTHONHASHSEED is varied across child processes."),
     'C16': dict(
         technique='Lean 4 proof that the HASSH preimage of a parsed KEXINIT equals the semicolon-joined name-list strings on the wire and that fingerprints are digest-renderings of the RFC 4253 key blob (digest abstract) + correspondence + hashlib reference from wire bytes',
@@ -209,6 +213,21 @@ NOT_YET = {
 ALL = ['C%02d' % i for i in range(1, 20)]
 
 
+def _recount(text):
+    """'NN theorems (CpProps/A.lean, B.lean)' -> the current count of `theorem` declarations in those files"""
+    import re
+
+    def repl(m):
+        files = [f.strip() for f in m.group(2).split(',')]
+        n = 0
+        for f in files:
+            path = os.path.join(VERIF, 'lean', 'CpProps', f if f.endswith('.lean') else f + '.lean')
+            if os.path.exists(path):
+                n += sum(1 for line in open(path) if line.startswith('theorem '))
+        return '{} theorems (CpProps/{})'.format(n, m.group(2)) if n else m.group(0)
+    return re.sub(r'(\d+) theorems \(CpProps/([A-Za-z0-9_., ]+)\)', repl, text)
+
+
 def main():
     checks = []
     for pid in ALL:
@@ -222,7 +241,7 @@ def main():
             'evidence_file': 'evidence/{}.json'.format(pid),
             'replay_cmd_template': './check --replay {path}',
             'engine': 'lean-model',
-            'level_claimed': {'category': 'proof', 'text': c['text'], 'design_ref': c['design']},
+            'level_claimed': {'category': 'proof', 'text': _recount(c['text']), 'design_ref': c['design']},
             'level_note': c['note'],
             'technique': c['technique'],
         })
